@@ -1,6 +1,7 @@
 package main
 
 import (
+	"bytes"
 	"fmt"
 	"strings"
 )
@@ -65,7 +66,7 @@ func keywordOf(l string) string {
 // injectFaults lists single-fault variants of a plain-style document.
 func injectFaults(lines []string, r *Rng) []fault {
 	var out []fault
-	singletons := map[string]bool{"Title": true, "Version": true, "Description": true, "Query": true, "Protocol": true, "Headers": true, "Body": true, "BaseUrl": true}
+	singletons := map[string]bool{"Title": true, "Version": true, "Description": true, "Query": true, "Protocol": true, "Headers": true, "Body": true, "BaseUrl": true, "Request": true}
 	namedTop := map[string]string{"TYPE": "duplicate type", "ENUM": "duplicate enum", "SERVER": "duplicate server", "TAG": "duplicate tag"}
 	for i, l := range lines {
 		kw := keywordOf(l)
@@ -189,6 +190,25 @@ func runC11(ctx *Ctx) {
 					What:  fmt.Sprintf("fault %q injected at lines %d-%d is reported at line %d (%s)", f.kind, f.lo, f.hi, res.Err.Line, res.Err.Msg),
 					Input: in, Observed: res.Err.Line, Expected: fmt.Sprintf("%d-%d", f.lo, f.hi), Signature: "fault-location:" + f.kind})
 			}
+		}
+	}
+	// a second Request directive of one method, whatever the two hold
+	for i := 0; i < ctx.Budget(150, 5000) && len(ctx.Violations) < 15; i++ {
+		doc := twoRequestsDoc(r)
+		two := bytes.Count(doc, []byte("  Request")) == 2
+		res := RunProject(SingleFile(doc), false)
+		ctx.Cov.Count(doc, two)
+		if res.Panic != "" {
+			continue
+		}
+		if two {
+			ctx.Cov.Hit("fault: second Request")
+		}
+		if two && res.Err == nil {
+			in := projectInput(SingleFile(doc))
+			in["op"] = "fault"
+			ctx.Violate(Violation{Kind: "wrong-output", Site: "static checks", What: "a method with two Request directives is accepted", Input: in,
+				Observed: "accepted", Expected: "rejected", Signature: "fault-accepted:second Request"})
 		}
 	}
 	ctx.Cov.Component("single injected fault => rejection located at the offending directive (specification on the implementation)", ctx.Cov.Evaluations, len(ctx.Violations), "")
